@@ -411,6 +411,34 @@ func init() {
 			}
 			return mkFP(64, math.Log(t.f))
 		},
+		"math.Float32bits": func(fr *frame, a []value) value {
+			t := bvOf(a[0])
+			if !t.isC {
+				unsupported("math.Float32bits of a symbolic value")
+			}
+			return mkBV(32, uint64(math.Float32bits(float32(t.f))))
+		},
+		"math.Float64bits": func(fr *frame, a []value) value {
+			t := bvOf(a[0])
+			if !t.isC {
+				unsupported("math.Float64bits of a symbolic value")
+			}
+			return mkBV(64, math.Float64bits(t.f))
+		},
+		"math.Float32frombits": func(fr *frame, a []value) value {
+			t := bvOf(a[0])
+			if !t.isC {
+				unsupported("math.Float32frombits of a symbolic value")
+			}
+			return mkFP(32, float64(math.Float32frombits(uint32(t.c))))
+		},
+		"math.Float64frombits": func(fr *frame, a []value) value {
+			t := bvOf(a[0])
+			if !t.isC {
+				unsupported("math.Float64frombits of a symbolic value")
+			}
+			return mkFP(64, math.Float64frombits(t.c))
+		},
 		"math/bits.OnesCount64": func(fr *frame, a []value) value { return mkPopcount64(bvOf(a[0])) },
 		"math/bits.TrailingZeros": func(fr *frame, a []value) value {
 			t := bvOf(a[0])
